@@ -220,6 +220,9 @@ func treeOfLast(steps []step, upto int) map[string]string {
 
 func init() {
 	registry["C04"] = func(c *core.Ctx, replay string) {
+		if replayBehaviourOnly(c, replay, replayFetchCheckout, "model_checking") {
+			return
+		}
 		c.Level = "model_checking"
 		lfs := c.BuildLFS()
 		cfg, budget := "FetchCheckout_q.cfg", 320
